@@ -164,6 +164,9 @@ ROUTES_I = ["call", "numpy", "numpy-array", "numpy-bcast", "numpy-single", "numb
             "numba-single", "diff", "derivatives"]
 
 
+ROUTES_DEEP = ["call", "numpy-array", "numba", "numba-array", "diff", "derivatives"]
+
+
 def _args(np, pt, has_arr):
     return (pt["a"], pt["b"]) + ((np.array(pt["arr"], dtype=float),) if has_arr else ())
 
@@ -607,7 +610,10 @@ def tensor_chunk(case):
                 why = refusal(route, _text, exc, jit)
                 if why is None and route.startswith("call-array") and rank == 2 and type(exc).__name__ == "ValueError" \
                         and "broadcast" in str(exc) and const_row[0]:
-                    why = "rank-2 tensor expression with a constant row called with arrays (ValueError: cannot broadcast)"
+                    # same family as the silent case below (fixed in /repo 6c3e0fc): rows were broadcast one by one
+                    rec.bad(f"rank2/{route}", "constant row", "arrays cannot be broadcast (ValueError)", _text,
+                            f"ValueError: {str(exc)[:200]}", replay(route, plist), "tensor_chunk")
+                    return False, None
                 if why:
                     rec.refs[why] += 1
                 elif _deriv_fpe(route, exc):
@@ -964,12 +970,19 @@ def main(run):
                       fn=FN + "expr_chunk", mode="I", case={})
 
     # 1. all expressions x all routes, interpreted kernels (mode I); one case = <= 24 expressions of one shape
-    cases = []
+    base = {O.text(t) for t in O.enumerate_trees("quick")}
+    cases, deep = [], []
     for shp, texts in groups.items():
-        for ch in _chunks(texts, 24):
+        for ch in _chunks([t for t in texts if t in base], 24):
             cases.append({"shape": shp, "exprs": ch, "seed": seed})
+        # the expressions only the thorough tier has: the argument-passing variants (single_arg, broadcasting,
+        # the scalar numpy function = `call`) do not depend on the depth of the expression and are left out
+        for ch in _chunks([t for t in texts if t not in base], 24):
+            deep.append({"shape": shp, "exprs": ch, "seed": seed, "routes": ROUTES_DEEP})
     cases.sort(key=lambda c: -len(c["exprs"]))
+    deep.sort(key=lambda c: -len(c["exprs"]))
     explore("expr_chunk", cases, "I", "expr[I]", chunksize=1, limit=1200)
+    explore("expr_chunk", deep, "I", "expr-deep[I]", chunksize=1, limit=1200)
 
     # 2. really compiled: one representative per shape class
     jroutes = ["numba", "numba-array"]
